@@ -437,6 +437,26 @@ func (bs *blockState) inline(fn *ssa.Function, args []Val, bindings []Val, resTy
 			nf.names[fv.Name()] = bindings[i]
 		}
 	}
+	// the caller's named locals are visible to the callee's loop invariants as outer_<name> (needed when the callee's loop runs a
+	// closure that updates variables of the caller)
+	for k, v := range fr.names {
+		key := k
+		if !strings.HasPrefix(k, "outer_") {
+			key = "outer_" + k
+		}
+		if _, dup := nf.names[key]; !dup {
+			nf.names[key] = v
+		}
+	}
+	for k, c := range fr.cellNames {
+		key := k
+		if !strings.HasPrefix(k, "outer_") {
+			key = "outer_" + k
+		}
+		if _, dup := nf.cellNames[key]; !dup {
+			nf.cellNames[key] = c
+		}
+	}
 	// state at the call, visible to the callee's loop invariants as call_raw, call_bal, ...
 	for _, g := range stateComponents {
 		nf.names["call_"+g] = bs.st.glob[g]
@@ -615,6 +635,19 @@ func (bs *blockState) applySpec(c *Contract, display string, args []Val, rts []t
 				if t, ok := bs.load(p, pos).(Term); ok && t.Sort != "Nil" {
 					pre.Vars[fv.Name()] = t
 				}
+			}
+		}
+	}
+	// a map built by this function and handed to a callee known only by its contract may be changed by it: forget its content
+	for _, a := range args {
+		if mr, ok := a.(*MapRef); ok {
+			bs.st.cells[mr.cell] = ex.fresh("map_after_call", mr.cell.sort)
+		}
+	}
+	for _, b := range bs.pendingBindings {
+		if p, ok := b.(*Ptr); ok && p.cell != nil && len(p.path) == 0 {
+			if mr, ok := bs.st.cells[p.cell].(*MapRef); ok {
+				bs.st.cells[mr.cell] = ex.fresh("map_after_call", mr.cell.sort)
 			}
 		}
 	}
